@@ -193,12 +193,16 @@ def extra_verdicts(genfn, nq, nt):
             for k, v in c.get('desc', {}).items():
                 dist[f'{k}={v}'] = dist.get(f'{k}={v}', 0) + 1
             accepted = rc == 0
+            # an error of derive_ex's own reaches rustc as `compile_error!`: a diagnostic without an error code.  The wording
+            # is the implementation's business (no property prescribes it): the known text is looked for first, any
+            # code-less error will do
+            own = lambda d: d['level'] == 'error' and d.get('code') is None
             if 'expect_only_error' in c:
                 errs = [d for d in diags if d['level'] == 'error']
-                good = (not accepted) and errs and all(any(t in d['message'] for t in c['expect_only_error']) for d in errs)
+                good = (not accepted) and errs and all(any(t in d['message'] for t in c['expect_only_error']) or own(d) for d in errs)
                 want = 'refused with errors of derive_ex only (the item itself still there): ' + ' / '.join(c['expect_only_error'])
             elif 'expect_error' in c:
-                good = (not accepted) and any(c['expect_error'] in d['message'] for d in diags)
+                good = (not accepted) and (any(c['expect_error'] in d['message'] for d in diags) or any(own(d) for d in diags))
                 want = 'refused by derive_ex with: ' + c['expect_error']
             else:
                 good = accepted == c['expect_ok'] and (accepted or any('Eq' in d['message'] for d in diags))
